@@ -439,6 +439,7 @@ func runC04(c *Ctx) {
 	ruleUserSyntaxRequalified(c, "C04.16")
 	ruleArgumentTypeAsRequired(c, "C04.17")
 	ruleTypeExprsNotShared(c, "C04.18")
+	ruleAliasSpelledAsDeclared(c, "C04.19")
 	ruleEllipsisOnlyLast(c, "C04.6")
 
 	// C04.10 user identifiers reach the allocator (shared with C12): otherwise a generated local can shadow a user name
